@@ -108,8 +108,74 @@ def float_fuzz(P):
     print(json.dumps({"n": n, "bad": bad[:20]}))
 
 
+def history_case(case, order):
+    """validate() must be a function of the tree: the same objects validated again, violated, validated, restored and
+    validated again; every step records the dumped tree and what validate reported, plus a freshly built equal tree"""
+    r = {"steps": []}
+    try:
+        o = base.construct(case["tree"])
+        node = base.sub(o, case["path"])
+
+        def snap(label):
+            r["steps"].append({"label": label, "obj": base.dump(o, order), "rec": base.run_validate(o, True),
+                               "nonrec": base.run_validate(o, False), "node_nonrec": base.run_validate(node, False)})
+        snap("fresh")
+        snap("again")
+        orig = getattr(node, case["member"])
+        setattr(node, case["member"], base.conv(case["bad"]))
+        snap("violated")
+        setattr(node, case["member"], orig)
+        snap("restored")
+        snap("restored-again")
+        o2 = base.construct(case["tree"])
+        r["rebuilt"] = {"obj": base.dump(o2, order), "rec": base.run_validate(o2, True)}
+        f = io.StringIO()
+        o.export(f, 0, name_=case["tag"], namespacedef_=base.writer_namespacedef())
+        r["lx"], _ = base.lx_validate_text(f.getvalue())
+    except Exception as e:  # noqa
+        r["err"] = type(e).__name__ + ": " + str(e)[:300]
+    return r
+
+
+def add_history():
+    """add(<type name>, validate=True, ...) failing, then succeeding on the same parent; the parent validates"""
+    import neuroml
+    out = {}
+    try:
+        doc = neuroml.NeuroMLDocument(id="doc")
+        kw = dict(leak_reversal="-60mV", thresh="-50mV", reset="-65mV", C="1nF", leak_conductance="0.05uS")
+        try:
+            doc.add("IafCell", id="bad id!", validate=True, **kw)
+            out["bad_add"] = "accepted"
+        except ValueError:
+            out["bad_add"] = "ValueError"
+        out["cells_after_bad_add"] = len(doc.iaf_cells)
+        try:
+            doc.add("IafCell", id="good", validate=True, **kw)
+            out["good_add"] = "accepted"
+        except Exception as e:  # noqa
+            out["good_add"] = type(e).__name__ + ": " + str(e)[:200]
+        out["cells_after_good_add"] = len(doc.iaf_cells)
+        out["doc"] = base.run_validate(doc, True)
+        out["doc_again"] = base.run_validate(doc, True)
+    except Exception as e:  # noqa
+        out["err"] = type(e).__name__ + ": " + str(e)[:300]
+    return out
+
+
 def main():
     P = json.load(sys.stdin)
+    if P.get("mode") == "history":
+        base.install_recorder()
+        real_stdout = sys.stdout
+        sys.stdout = io.StringIO()
+        try:
+            res = [history_case(c, P["order"]) for c in P["cases"]]
+            addh = add_history()
+        finally:
+            sys.stdout = real_stdout
+        print(json.dumps({"results": res, "add": addh}))
+        return
     if P.get("mode") == "floatfuzz":
         return float_fuzz(P)
     if P.get("mode") == "writerinfo":
